@@ -1193,6 +1193,14 @@ func (o *ovsdbClient) Echo(ctx context.Context) error {
 func (o *ovsdbClient) watchForLeaderChange() error {
 	updates := make(chan model.Model)
 	o.databases[serverDB].cache.AddEventHandler(&cache.EventHandlerFuncs{
+		// after a reconnect the row comes back as initial contents of the
+		// restarted monitor: a leadership lost between the leader check of the
+		// new connection and that monitor request is only visible there
+		AddFunc: func(table string, new model.Model) {
+			if table == "Database" {
+				updates <- new
+			}
+		},
 		UpdateFunc: func(table string, _, new model.Model) {
 			if table == "Database" {
 				updates <- new
